@@ -34,7 +34,9 @@ Theorem C19_conservation_multiset : forall (V : Type) (zero : V) (sched : list (
 Proof. exact @conservation_multiset. Qed.
 Print Assumptions C19_conservation_multiset.
 
-(* every logged operation is the helper's or the environment's, in order *)
+(* AUXILIARY LEMMA about the log projections used in the statements below (not a
+   statement about the Go code): every logged operation is the helper's or the
+   environment's, and the per-agent projections keep the order *)
 Theorem C19_log_parts : forall (V : Type) (l : list (event V)),
   length (sent_vals l) = length (sent_by Helper l) + length (sent_by Env l) /\
   length (rcvd_vals l) = length (rcvd_by Helper l) + length (rcvd_by Env l) /\
@@ -105,23 +107,76 @@ Theorem C19_recv_queued_any_schedule : forall (V : Type) (zero : V) (sched : lis
 Proof. exact @recv_queued_any_schedule. Qed.
 Print Assumptions C19_recv_queued_any_schedule.
 
-(* ... and those values are an order-preserving part of everything received
-   from the channel, itself a prefix of initial contents ++ completed sends:
-   FIFO-consistent, nothing invented *)
+(* Everything about RecvQueued under a concurrent environment in ONE statement,
+   from a runtime-reachable channel and an empty log: the helper holds / has
+   returned l; l is EXACTLY the helper's own receives, in order (its Rcvd
+   entries in the log: the helper itself loses, duplicates, reorders, invents
+   nothing); at most maxValues of them; it sent nothing; it has returned after
+   maxValues+1 own steps; and those receives are an order-preserving part of
+   all receives from the channel, which are a prefix of initial contents ++
+   completed sends (FIFO conservation). *)
 Theorem C19_recv_queued_fifo : forall (V : Type) (zero : V) (sched : list (action V)) (c : chan V) (dn : bool) (m : Z),
   wf c ->
   let st' := run zero sched (World c dn [], RecvQueued m) in
   exists l, (snd st' = PQueued l m \/ snd st' = PRet (RList l)) /\
+    (Z.to_nat m + 1 <= count_help sched -> snd st' = PRet (RList l)) /\
+    (Z.of_nat (length l) <= Z.max 0 m)%Z /\
+    rcvd_by Helper (log (fst st')) = l /\ sent_by Helper (log (fst st')) = [] /\
     subseq l (rcvd_vals (log (fst st'))) /\
     buf c ++ sent_vals (log (fst st')) = rcvd_vals (log (fst st')) ++ buf (ch (fst st')).
 Proof. exact @recv_queued_fifo. Qed.
 Print Assumptions C19_recv_queued_fifo.
+
+(* the same for RecvQueuedFull: buf = own receives ++ untouched rest of the caller's buf *)
+Theorem C19_recv_queued_full_fifo : forall (V : Type) (zero : V) (sched : list (action V)) (c : chan V) (dn : bool) (buf0 : list V),
+  wf c ->
+  let st' := run zero sched (World c dn [], RecvQueuedFull buf0) in
+  exists l, (snd st' = PQueuedFull (length l) (l ++ skipn (length l) buf0) \/
+             snd st' = PRet (RFull (length l) (l ++ skipn (length l) buf0))) /\
+    (length buf0 + 1 <= count_help sched -> snd st' = PRet (RFull (length l) (l ++ skipn (length l) buf0))) /\
+    length l <= length buf0 /\
+    rcvd_by Helper (log (fst st')) = l /\ sent_by Helper (log (fst st')) = [] /\
+    subseq l (rcvd_vals (log (fst st'))) /\
+    buf c ++ sent_vals (log (fst st')) = rcvd_vals (log (fst st')) ++ buf (ch (fst st')).
+Proof. exact @recv_queued_full_fifo. Qed.
+Print Assumptions C19_recv_queued_full_fifo.
 
 Theorem C19_recv_queued_full_any_schedule : forall (V : Type) (zero : V) (sched : list (action V)) (w : world V) (buf0 : list V),
   full_outcome buf0 w sched (run zero sched (w, RecvQueuedFull buf0)).
 Proof. exact @recv_queued_full_any_schedule. Qed.
 Print Assumptions C19_recv_queued_full_any_schedule.
 
+(* "Exactly the values already queued, up to the limit", in general: no other
+   goroutine RUNS during the call, but any number of senders may already be
+   parked on the channel (sq, oldest first; every capacity, contents b,
+   open/closed state, limit m).  Any m+1 own steps return exactly
+   firstn m (b ++ sq): the buffered values followed by the parked senders'
+   values.  [parked_after]: the first min(m,|sq|) parked senders have completed,
+   in order; the rest of the queue is still there (front b' in the buffer,
+   b' ++ skipn m sq = skipn m (b ++ sq), tail skipn m sq still parked); the log
+   gained exactly those receives by the helper and those completed sends. *)
+Theorem C19_recv_queued_alone_parked : forall (V : Type) (zero : V) (b sq : list V) (cp : nat) (cl : bool) (rq : nat)
+    (dn : bool) (lg : list (event V)) (m : Z) (choices : list bool),
+  Z.to_nat m + 1 <= length choices ->
+  let k := Z.to_nat m in
+  exists w', run zero (map AHelp choices) (World (Chan b cp cl sq rq) dn lg, RecvQueued m)
+             = (w', PRet (RList (firstn k (b ++ sq)))) /\
+             parked_after b sq cp cl rq dn lg k w'.
+Proof. exact @recv_queued_alone_parked. Qed.
+Print Assumptions C19_recv_queued_alone_parked.
+
+Theorem C19_recv_queued_full_alone_parked : forall (V : Type) (zero : V) (b sq : list V) (cp : nat) (cl : bool) (rq : nat)
+    (dn : bool) (lg : list (event V)) (buf0 : list V) (choices : list bool),
+  length buf0 + 1 <= length choices ->
+  let k := length buf0 in
+  let taken := firstn k (b ++ sq) in
+  exists w', run zero (map AHelp choices) (World (Chan b cp cl sq rq) dn lg, RecvQueuedFull buf0)
+             = (w', PRet (RFull (length taken) (taken ++ skipn (length taken) buf0))) /\
+             parked_after b sq cp cl rq dn lg k w'.
+Proof. exact @recv_queued_full_alone_parked. Qed.
+Print Assumptions C19_recv_queued_full_alone_parked.
+
+(* Corollaries (sq = []), with the final world and log written out. *)
 (* no other goroutine on the channel: every capacity, contents b, open/closed
    state and limit m; any m+1 own steps give exactly firstn m b, leave skipn m
    b, log one receive per value and change nothing else *)
@@ -209,4 +264,16 @@ Example C19_example :
   (* RecvQueuedFull: two queued values into a buf of three *)
   run 0%Z (map AHelp [true; true; true; true]) (World (Chan [1; 2]%Z 2 false [] 0) false [], RecvQueuedFull [9; 9; 9]%Z)
     = (World (Chan [] 2 false [] 0) false [Rcvd Helper 1%Z; Rcvd Helper 2%Z], PRet (RFull 2 [1; 2; 9]%Z)).
+Proof. vm_compute. repeat split. Qed.
+
+(* parked senders: full buffer [1;2] with senders 3,4,5 parked; RecvQueued 4 takes 1,2,3,4, senders 3,4,5 complete
+   (5 moves into the buffer); unbuffered channel with senders 7,8 parked, RecvQueuedFull into a buf of 3 *)
+Example C19_parked_example :
+  run 0%Z (map AHelp [true; true; true; true; true]) (World (Chan [1; 2]%Z 2 false [3; 4; 5]%Z 0) false [], RecvQueued 4%Z)
+    = (World (Chan [5]%Z 2 false [] 0) false
+         [Rcvd Helper 1%Z; Sent Env 3%Z; Rcvd Helper 2%Z; Sent Env 4%Z; Rcvd Helper 3%Z; Sent Env 5%Z; Rcvd Helper 4%Z],
+       PRet (RList [1; 2; 3; 4]%Z)) /\
+  run 0%Z (map AHelp [true; true; true; true]) (World (Chan ([] : list Z) 0 false [7; 8]%Z 0) false [], RecvQueuedFull [9; 9; 9]%Z)
+    = (World (Chan [] 0 false [] 0) false [Sent Env 7%Z; Rcvd Helper 7%Z; Sent Env 8%Z; Rcvd Helper 8%Z],
+       PRet (RFull 2 [7; 8; 9]%Z)).
 Proof. vm_compute. repeat split. Qed.
